@@ -331,9 +331,252 @@ theorem released_after_handling (su : Nat → Nat → Bool) (est : Nat → Int)
     have : pre.length + 1 = (pre.length + 1) := rfl
     exact ⟨c', by simpa [List.replicate_succ] using hc', hrel⟩
 
+
+-- progress under arbitrary interleaving -------------------------------------------------------------
+
+/-- every action other than the processor's item / clear / stop iterations only appends to the insert
+buffer and releases nobody -/
+theorem other_step_appends (su : Nat → Nat → Bool) (c c' : Cache) (a : Act) (hs : c.step su a = some c')
+    (hnp : (match a with | .procItem _ _ => false | .procClear => false | .procStop => false | _ => true) = true) :
+    (∃ tail, c'.buf = c.buf ++ tail) ∧ c'.released = c.released := by
+  cases a with
+  | insert k cf v cost ttl now coster only =>
+    simp only [Cache.step, Option.some.injEq] at hs; subst hs
+    have := clients_only_append su c k cf v cost ttl now coster only 0
+    exact ⟨this.1, this.2.1⟩
+  | get k cf now =>
+    simp only [Cache.step, Option.some.injEq] at hs; subst hs
+    unfold Cache.get; split
+    · exact ⟨⟨[], by simp⟩, rfl⟩
+    · simp only []; split <;> exact ⟨⟨[], by simp⟩, by simp⟩
+  | getMut k cf now v =>
+    simp only [Cache.step, Option.some.injEq] at hs; subst hs
+    unfold Cache.getMutWrite; split
+    · exact ⟨⟨[], by simp⟩, rfl⟩
+    · simp only []; split <;> exact ⟨⟨[], by simp⟩, by simp⟩
+  | remove k cf =>
+    simp only [Cache.step, Option.some.injEq] at hs; subst hs
+    have := clients_only_append su c k cf 0 0 0 0 0 false 0
+    exact ⟨this.2.2.1, this.2.2.2.1⟩
+  | waitEnq w =>
+    simp only [Cache.step, Option.some.injEq] at hs; subst hs
+    have := clients_only_append su c 0 0 0 0 0 0 0 false w
+    exact ⟨this.2.2.2.2.1, this.2.2.2.2.2⟩
+  | clearReq w =>
+    simp only [Cache.step, Option.some.injEq] at hs; subst hs
+    unfold Cache.clearReq; split <;> exact ⟨⟨[], by simp⟩, rfl⟩
+  | closeBegin w =>
+    simp only [Cache.step, Option.some.injEq] at hs; subst hs
+    unfold Cache.closeBegin; split <;> exact ⟨⟨[], by simp⟩, rfl⟩
+  | updateMaxCost mc =>
+    simp only [Cache.step, Option.some.injEq] at hs; subst hs
+    exact ⟨⟨[], by simp [Cache.updateMaxCost]⟩, rfl⟩
+  | procItem est refills => simp at hnp
+  | procClear => simp at hnp
+  | procStop => simp at hnp
+  | procTick now order =>
+    simp only [Cache.step, Cache.procTick] at hs
+    split at hs
+    · cases hs
+    · simp only [Option.some.injEq] at hs; subst hs
+      have hf := tick_frame c now order
+      exact ⟨⟨[], by simp [hf.1]⟩, hf.2⟩
+  | policyWorker =>
+    simp only [Cache.step, Cache.policyWorkerStep] at hs
+    cases hp : c.pq with
+    | nil => simp [hp] at hs
+    | cons b rest =>
+      simp only [hp, Option.map_some, Option.some.injEq] at hs; subst hs
+      exact ⟨⟨[], by simp⟩, rfl⟩
+  | policyClose =>
+    simp only [Cache.step, Option.some.injEq] at hs; subst hs
+    exact ⟨⟨[], by simp [Cache.policyClose]⟩, rfl⟩
+
+/-- nobody is ever un-released -/
+theorem step_released_mono (su : Nat → Nat → Bool) (c c' : Cache) (a : Act) (hs : c.step su a = some c')
+    (id : Nat) (h : id ∈ c.released) : id ∈ c'.released := by
+  have := no_lost_wakeup su c c' a hs id (Or.inr h)
+  -- `Served` alone would allow "back in the buffer"; rule that out step by step
+  by_cases hnp : (match a with | .procItem _ _ => false | .procClear => false | .procStop => false | _ => true) = true
+  · rw [(other_step_appends su c c' a hs hnp).2]; exact h
+  · cases a with
+    | procItem est refills =>
+      simp only [Cache.step, Cache.procItem] at hs
+      split at hs
+      · cases hs
+      · split at hs
+        · cases hs
+        · simp only [Option.some.injEq] at hs; subst hs
+          rw [handleItem_released]; left
+          rw [admitPending_released]; exact h
+    | procClear =>
+      simp only [Cache.step, Cache.procClear] at hs
+      split at hs
+      · cases hs
+      · split at hs
+        · cases hs
+        · rename_i w rest hq
+          simp only [Option.some.injEq] at hs; subst hs
+          have hd := drain_released c.buf { c with buf := [], clearQ := rest }
+          simp only [List.mem_cons]
+          right; exact hd.2 id h
+    | procStop =>
+      simp only [Cache.step, Cache.procStop] at hs
+      split at hs
+      · cases hs
+      · simp only [Option.some.injEq] at hs; subst hs
+        simp only [List.mem_append]
+        right; exact h
+    | _ => simp at hnp
+
+theorem run_released_mono (su : Nat → Nat → Bool) (acts : List Act) (c : Cache) (id : Nat)
+    (h : id ∈ c.released) : id ∈ (Cache.run su c acts).released := by
+  induction acts generalizing c with
+  | nil => exact h
+  | cons a rest ih =>
+    simp only [Cache.run]
+    apply ih
+    cases hs : c.step su a with
+    | none => exact h
+    | some c' => exact step_released_mono su c c' a hs id h
+
+/-- ghost: the number of processor iterations (item, clear, stop) actually taken along a run -/
+def procStepsTaken (su : Nat → Nat → Bool) : Cache → List Act → Nat
+  | _, [] => 0
+  | c, a :: rest =>
+    (match a, c.step su a with
+     | .procItem _ _, some _ => 1
+     | .procClear, some _ => 1
+     | .procStop, some _ => 1
+     | _, _ => 0) + procStepsTaken su ((c.step su a).getD c) rest
+
+/-- **progress under every interleaving**: with `n` items ahead of a waiter's marker, after *any* run —
+clients inserting, removing, waiting, clearing, closing in between, ticks, the policy worker — the
+waiter has been released, or its marker is still buffered with at most `n` minus the number of
+processor iterations taken so far ahead of it. -/
+theorem wait_progress (su : Nat → Nat → Bool) (acts : List Act) :
+    ∀ (c : Cache) (pre post : List Item) (id : Nat), c.buf = pre ++ Item.wait id :: post →
+      id ∈ (Cache.run su c acts).released ∨
+      ∃ pre' post', (Cache.run su c acts).buf = pre' ++ Item.wait id :: post' ∧
+        pre'.length + procStepsTaken su c acts ≤ pre.length := by
+  induction acts with
+  | nil => intro c pre post id hb; right; exact ⟨pre, post, hb, by simp [procStepsTaken]⟩
+  | cons a rest ih =>
+    intro c pre post id hb
+    simp only [Cache.run, procStepsTaken]
+    cases hs : c.step su a with
+    | none =>
+      simp only [Option.getD_none]
+      have := ih c pre post id hb
+      rcases this with h | ⟨pre', post', h1, h2⟩
+      · left; exact h
+      · right; refine ⟨pre', post', h1, ?_⟩
+        have h0 : (match a, (none : Option Cache) with
+          | .procItem _ _, some _ => 1 | .procClear, some _ => 1 | .procStop, some _ => 1 | _, _ => 0) = 0 := by
+          cases a <;> rfl
+        omega
+    | some c' =>
+      simp only [Option.getD_some]
+      by_cases hnp : (match a with | .procItem _ _ => false | .procClear => false | .procStop => false | _ => true) = true
+      · -- somebody else's step: the marker keeps its place
+        obtain ⟨⟨tail, ht⟩, _⟩ := other_step_appends su c c' a hs hnp
+        have hb' : c'.buf = pre ++ Item.wait id :: (post ++ tail) := by rw [ht, hb]; simp
+        have h0 : (match a, some c' with
+          | .procItem _ _, some _ => 1 | .procClear, some _ => 1 | .procStop, some _ => 1 | _, _ => 0) = 0 := by
+          cases a <;> simp at hnp <;> rfl
+        rcases ih c' pre (post ++ tail) id hb' with h | ⟨pre', post', h1, h2⟩
+        · left; exact h
+        · right; exact ⟨pre', post', h1, by omega⟩
+      · cases a with
+        | procItem est refills =>
+          cases pre with
+          | nil =>
+            -- the marker is at the head: this iteration releases the waiter
+            left
+            apply run_released_mono
+            simp only [Cache.step, Cache.procItem] at hs
+            split at hs
+            · cases hs
+            · simp only [List.nil_append] at hb
+              rw [hb] at hs
+              simp only [Option.some.injEq] at hs; subst hs
+              rw [handleItem_released]; right; rfl
+          | cons it pre2 =>
+            simp only [Cache.step, Cache.procItem] at hs
+            split at hs
+            · cases hs
+            · simp only [List.cons_append] at hb
+              rw [hb] at hs
+              simp only [Option.some.injEq] at hs; subst hs
+              have hb1 : ∃ post', (({ c with buf := pre2 ++ Item.wait id :: post } : Cache).admitPending).buf =
+                  pre2 ++ Item.wait id :: post' := by
+                unfold Cache.admitPending
+                cases c.pendingSends with
+                | nil => exact ⟨post, rfl⟩
+                | cons p ps =>
+                  simp only
+                  split
+                  · exact ⟨post ++ [p], by simp⟩
+                  · exact ⟨post, rfl⟩
+              obtain ⟨post', hp⟩ := hb1
+              have hb2 := (handleItem_buf (({ c with buf := pre2 ++ Item.wait id :: post } : Cache).admitPending) su est refills it).trans hp
+              rcases ih _ pre2 post' id hb2 with h | ⟨pre', post'', h1, h2⟩
+              · left; exact h
+              · right; refine ⟨pre', post'', h1, ?_⟩
+                simp only [List.length_cons]; omega
+        | procClear =>
+          left
+          apply run_released_mono
+          have := no_lost_wakeup su c c' .procClear hs id (Or.inl (by rw [hb]; simp))
+          -- after a clear the buffer is empty: "served" means released
+          simp only [Cache.step, Cache.procClear] at hs
+          split at hs
+          · cases hs
+          · split at hs
+            · cases hs
+            · rename_i w rest hq
+              simp only [Option.some.injEq] at hs; subst hs
+              have hd := drain_released c.buf { c with buf := [], clearQ := rest }
+              simp only [List.mem_cons]
+              right; exact hd.1 id (by rw [hb]; simp)
+        | procStop =>
+          left
+          apply run_released_mono
+          simp only [Cache.step, Cache.procStop] at hs
+          split at hs
+          · cases hs
+          · simp only [Option.some.injEq] at hs; subst hs
+            simp only [List.mem_append, List.mem_filterMap]
+            left; right; exact ⟨Item.wait id, by rw [hb]; simp, rfl⟩
+        | _ => simp at hnp
+
+/-- **`wait()` returns**: as soon as the processor has made more iterations than there were items
+ahead of the marker, the waiter is released — whatever every other actor did meanwhile. Under fairness
+(the processor keeps being scheduled) every `wait()` therefore returns. -/
+theorem wait_returns (su : Nat → Nat → Bool) (acts : List Act) (c : Cache) (pre post : List Item) (id : Nat)
+    (hb : c.buf = pre ++ Item.wait id :: post) (henough : pre.length < procStepsTaken su c acts) :
+    id ∈ (Cache.run su c acts).released ∧ (Cache.run su c acts).mayReturn id true = true := by
+  have := wait_progress su acts c pre post id hb
+  rcases this with h | ⟨pre', post', _, h2⟩
+  · exact ⟨h, by simp [Cache.mayReturn, h]⟩
+  · omega
+
+-- non-vacuity of `wait_returns`: one delete ahead of the marker, a client inserting in between, two
+-- processor iterations — the premise holds and the waiter is released
+def exCfg : Cfg := { itemSize := 56, ignoreInternal := false, bufCap := 4, ringCap := 2, pqCap := some 3, metricsOn := false }
+def exStart : Cache := { Cache.init exCfg 100 5 with buf := [Item.delete 3 0, Item.wait 7] }
+def exActs : List Act :=
+  [.procItem (fun _ => 0) [], .insert 1 0 5 1 0 10 0 false, .procItem (fun _ => 0) []]
+example : exStart.buf = [Item.delete 3 0] ++ Item.wait 7 :: [] := rfl
+example : [Item.delete 3 0].length < procStepsTaken (fun _ _ => true) exStart exActs := by decide
+example : 7 ∈ (Cache.run (fun _ _ => true) exStart exActs).released := by decide
+
 end Stretto.C10
 
 #print axioms Stretto.C10.no_lost_wakeup
 #print axioms Stretto.C10.marker_released_at_head
 #print axioms Stretto.C10.clients_only_append
 #print axioms Stretto.C10.released_after_handling
+#print axioms Stretto.C10.wait_progress
+#print axioms Stretto.C10.wait_returns
+#print axioms Stretto.C10.step_released_mono
